@@ -74,8 +74,8 @@ def run(tier, seed):
         rep = common.load_report(rp)
         for f in rep["failures"]:
             f["case"] = {"mode": "node", "endpoint": endpoint, "case": f["case"]}
-        if any(f["key"] == "node_not_up" for f in rep["failures"]):
-            raise common.ToolError("node_admit: the node under test never came up")
+        if any(f["key"] in ("node_not_up", "harness_timeout") for f in rep["failures"]):
+            raise common.ToolError("node_admit: the node under test never came up / a dial stayed undetermined for 30 s")
         fails += rep["failures"]
         evals += rep["evaluations"]
         node.append({"endpoint": endpoint, "sequences_replayed": rep["distinct"], "dials": rep["evaluations"], "concurrent_admitted": rep["counters"].get("concurrent_admitted", 0)})
